@@ -172,6 +172,23 @@ func (r *FileRestorer) updateImports() error {
 		return nil
 	}
 
+	// a file that was parsed with syntax errors can hold import specs without a valid path - these
+	// can't be managed, so return an error (the code below assumes all paths can be unquoted)
+	var invalid error
+	dst.Inspect(r.file, func(n dst.Node) bool {
+		if spec, ok := n.(*dst.ImportSpec); ok && invalid == nil {
+			if spec.Path == nil {
+				invalid = fmt.Errorf("import spec has no path")
+			} else if _, err := strconv.Unquote(spec.Path.Value); err != nil {
+				invalid = fmt.Errorf("invalid import path %s: %w", spec.Path.Value, err)
+			}
+		}
+		return invalid == nil
+	})
+	if invalid != nil {
+		return invalid
+	}
+
 	// list of the import block(s)
 	var blocks []*dst.GenDecl
 
